@@ -145,6 +145,26 @@ void h_K_iter_eff(void)
   K_iter_eff(s);
 }
 
+/* ---- make_block_data accumulation loops, FanProjData::sum ---- */
+#ifndef C20_CA
+#define C20_CA 8
+#define C20_CT 8
+#endif
+#include "K_make_block_data.c"
+void h_K_make_block_data(void)
+{
+  struct FAN* s;
+  g_ra = nondet_int(); g_a = nondet_int(); g_rb = nondet_int(); g_b = nondet_int(); g_acc = 0; g_blk_bad = 0;
+  K_make_block_data(s, nondet_int(), nondet_int());
+}
+#include "K_fan_sum.c"
+void h_K_fan_sum(void)
+{
+  struct FAN* s;
+  g_rb = nondet_int(); g_b = nondet_int(); g_acc = 0;
+  K_fan_sum(s, nondet_int(), nondet_int());
+}
+
 /* ---- FanProjData range accessors ---- */
 #include "K_fan_get_max_rb.c"
 #include "K_fan_get_min_rb_acc.c"
